@@ -142,6 +142,43 @@ def wrapper_checks(m, ent, sname, lab, tier, out):
                 if fg.shape == pg.shape and np.abs(fg - pg).max() > 1e-11 * (1 + np.abs(fg).max()):
                     bad('split-interpolate-grad', f"gradient of component {c} of interpolate(e_{k}) differs from the component basis")
                     return
+    # (1b) the same identity on bases restricted to a cell subset and on boundary facet bases
+    nt_ = m.t.shape[1]
+    rbases = []
+    if nt_ >= 2:
+        rbases.append(('cells[last]', lambda: CellBasis(m, ent.make(), elements=np.array([nt_ - 1], dtype=np.int32), intorder=4)))
+    if kind != 'wedge':
+        rbases.append(('boundary', lambda: FacetBasis(m, ent.make(), intorder=4)))
+        if (m.f2t[1] != -1).any():
+            from skfem import InteriorFacetBasis
+            rbases.append(('interior-side1', lambda: InteriorFacetBasis(m, ent.make(), intorder=4, side=1)))
+    for rl, mkb in rbases:
+        try:
+            rb = mkb()
+        except Exception:
+            continue
+        for k in sorted({0, N // 2, N - 1}):
+            e = np.zeros(N)
+            e[k] = 1.0
+            out.ev()
+            try:
+                full = rb.interpolate(e)
+                parts = rb.split(e)
+                for c, (xc, bc) in enumerate(parts):
+                    part = bc.interpolate(xc)
+                    part = part[0] if isinstance(part, tuple) else part
+                    fv = np.asarray(full)[c] if isvec else np.asarray(full[c] if isinstance(full, tuple) else full)
+                    pv = np.asarray(part)
+                    if fv.shape != pv.shape or np.abs(fv - pv).max() > 1e-12 * (1 + np.abs(fv).max()):
+                        bad('split-interpolate-restricted', f"{rl}: component {c} of interpolate(e_{k}) (shape {fv.shape}) differs "
+                            f"from interpolating the split vector on the component basis (shape {pv.shape}): split_bases does "
+                            f"not keep the restriction")
+                        raise StopIteration
+            except StopIteration:
+                break
+            except Exception as ex_:
+                bad('split-interpolate-restricted-exception', f"{rl}: {ex_!r}")
+                break
     # (2) coupling form with all blocks distinct == block matrix of the component assemblies
     coef = np.array([[1.0 + 2 * a + 5 * bb + (a * bb) for bb in range(nc)] for a in range(nc)])
     for mk_label, mk in (('cells', lambda e_: CellBasis(m, e_, intorder=4)),
@@ -408,4 +445,23 @@ def coodata_checks(m, sname, lab, out):
     B2 = bmat([[A11, None], [A21, A22]], 'csr')
     if B2.shape != W.shape:
         bad('bmat-none', "utils.bmat with a None block has the wrong shape")
+    # three and four block columns of different widths: offsets are the cumulative widths
+    from skfem import CellBasis as _CB
+    p0 = {'line': E.ElementLineP0, 'tri': E.ElementTriP0, 'quad': E.ElementQuad0, 'tet': E.ElementTetP0, 'hex': E.ElementHex0}[kind]
+    zb = _CB(m, p0(), intorder=4)
+    mk = lambda tb_, sb__: BilinearForm(lambda u, v, w: u * v).assemble(tb_, sb__)      # noqa: E731
+    bases = [ub, vb, zb, vb]
+    for ncol in (3, 4):
+        bs = bases[:ncol]
+        rows = [[mk(cb_, rb_) for cb_ in bs] for rb_ in bs]
+        rows[0][1] = None
+        Bn = bmat(rows, 'csr')
+        Wn = sp.bmat(rows, 'csr')
+        want = list(np.cumsum([b_.N for b_ in bs])[:-1])
+        out.ev()
+        if (abs(Bn - Wn)).nnz or [int(x) for x in Bn.blocks] != [int(x) for x in want]:
+            bad('bmat-offsets', f"utils.bmat with {ncol} block columns of widths {[b_.N for b_ in bs]}: .blocks = "
+                f"{[int(x) for x in Bn.blocks]}, cumulative offsets are {[int(x) for x in want]}")
+        else:
+            out.nt((sname, lab, 'bmat', ncol))
     out.sample({'mesh': f'{sname}:{lab}', 'sub-check': 'COOData', 'trial': reps[0], 'test': reps[1]}, 1)
